@@ -60,6 +60,30 @@ def dill_roundtrip(x: Any) -> Any:
 
 
 # ========================================================== gate catalogue
+class UserPhaseGate(Gate):
+    """A well-behaved user-defined gate living outside the bqskit package:
+    Circuit.__reduce__ ships such gates with dill instead of pickle."""
+    _num_qudits = 1
+    _num_params = 1
+    _radixes = (2,)
+    _qasm_name = 'userphase'
+
+    def __init__(self, scale: float = 1.0, label: str = 'u') -> None:
+        self.scale = scale
+        self.label = label
+        self._name = 'UserPhaseGate(%r,%r)' % (scale, label)
+
+    def get_unitary(self, params: Sequence[float] = []) -> UnitaryMatrix:
+        self.check_parameters(params)
+        return UnitaryMatrix([[1, 0], [0, np.exp(1j * self.scale * params[0])]])
+
+    def __eq__(self, other: object) -> bool:
+        return isinstance(other, UserPhaseGate) and (self.scale, self.label) == (other.scale, other.label)
+
+    def __hash__(self) -> int:
+        return hash(('UserPhaseGate', self.scale, self.label))
+
+
 def haar(rng: np.random.Generator, dim: int) -> np.ndarray:
     z = (rng.normal(size=(dim, dim)) + 1j * rng.normal(size=(dim, dim)))
     q, r = np.linalg.qr(z / np.sqrt(2))
@@ -158,6 +182,16 @@ def _init_catalogue() -> None:
     F['ControlledGate(Clock3;c2)'] = lambda r: G.ControlledGate(G.ClockGate(3), 1, 2, 1)
     F['TaggedGate(CSUM3)'] = lambda r: G.TaggedGate(G.CSUMGate(3), 7)
     F['EmbeddedGate(RZ;4;13)'] = lambda r: G.EmbeddedGate(G.RZGate(), 4, [1, 3])
+    # --- a gate class from outside the bqskit package (dill branch)
+    F['UserPhaseGate'] = lambda r: UserPhaseGate(0.5, 'a')
+    F['UserPhaseGate(2)'] = lambda r: UserPhaseGate(2.0, 'b')
+    F['ControlledGate(UserPhase)'] = lambda r: G.ControlledGate(UserPhaseGate(1.5, 'c'))
+    # --- keyword-argument constructions (a different cache key)
+    F['ClockGate(radix=3)'] = lambda r: G.ClockGate(radix=3)
+    F['PDGate(index=1,radix=3)'] = lambda r: G.PDGate(index=1, radix=3)
+    F['IdentityGate(num_qudits=2)'] = lambda r: G.IdentityGate(num_qudits=2)
+    F['CSUMGate(radix=4)'] = lambda r: G.CSUMGate(radix=4)
+    F['PermutationGate(kw)'] = lambda r: G.PermutationGate(num_qudits=2, location=(1, 0))
     # --- flexible radixes
     X = FLEX
     X['ConstantUnitaryGate'] = lambda r, rx: G.ConstantUnitaryGate(_u(r, rx), list(rx))
@@ -1201,7 +1235,10 @@ def workflow_view(p: Any, depth: int = 0) -> Any:
         return {type(p).__name__: sorted(repr(workflow_view(v, depth + 1)) for v in p)}
     if p is None or isinstance(p, (bool, int, float, str)):
         return p
-    return 'obj:' + type(p).__name__ + ':' + repr(p)[:80]
+    if hasattr(p, '__dict__') and not inspect.ismodule(p):
+        return {'obj': type(p).__name__, 'attrs': {k: workflow_view(v, depth + 1) for k, v in sorted(vars(p).items())}}
+    import re
+    return 'obj:' + type(p).__name__ + ':' + re.sub(r' at 0x[0-9a-f]+', '', repr(p))[:80]
 
 
 def flatten_types(v: Any, out: list[str] | None = None) -> list[str]:
